@@ -375,7 +375,7 @@ pub fn generate(rs: u64, focus: &str) -> Trace {
         g_apply(&mut g, &e);
         ops.push(Op::Store(e));
     }
-    let nthreads = 2 + g.rng.weighted(&[55, 30, 15]);
+    let nthreads = if crate::gen::thorough() { 2 + g.rng.weighted(&[35, 35, 30]) } else { 2 + g.rng.weighted(&[55, 30, 15]) };
     let mut threads: Vec<Vec<Op>> = vec![vec![]; nthreads];
     let scenario = match focus {
         "C04" => g.rng.weighted(&[5, 5, 0, 10, 0, 10, 70, 0]),
@@ -548,7 +548,7 @@ pub fn generate(rs: u64, focus: &str) -> Trace {
         _ => {
             // a random mix
             for t in 0..nthreads {
-                let n = 1 + g.rng.usize(3);
+                let n = 1 + g.rng.usize(if crate::gen::thorough() { 4 } else { 3 });
                 for _ in 0..n {
                     let op = match g.rng.weighted(&[35, 15, 10, 10, 8, 8, 14]) {
                         0 => Op::Store(g.new_event()),
